@@ -188,9 +188,15 @@ def print_assumptions(module, names, workdir):
             continue
         if "Closed under the global context" in line or line.strip() in ("", "Axioms:"):
             continue
-        m = re.match(r"^([A-Za-z_][\w.']*)\s*:", line)
-        if m and not line.startswith(" "):
+        # an axiom is printed as `Name : type` or, for long types, as `Name` on its own line
+        # followed by indented `  : type` lines
+        if line.startswith((" ", "\t")):
+            continue
+        m = re.match(r"^([A-Za-z_][\w']*(?:\.[A-Za-z_][\w']*)*)\s*(:.*)?$", line.rstrip())
+        if m:
             res[cur].append(m.group(1))
+        else:
+            res[cur].append("UNPARSED:" + line.strip()[:80])
     return res
 
 
@@ -331,8 +337,10 @@ def run_model_compare(runner_module, runner_fn, pairs, workdir, tag, want_output
     os.makedirs(workdir, exist_ok=True)
     if not pairs:
         return [], {}
-    per = 150
-    nshard = max(1, (len(pairs) + per - 1) // per)
+    # shard by the amount of literal data (Coq parses big list literals slowly), at least NPROC
+    # shards when there is enough work
+    weight = sum(len(a) + len(b) + sum(len(str(x)) // 6 for x in a) for a, b in pairs)
+    nshard = max(1, min(len(pairs), max(min(NPROC, len(pairs) // 8), weight // 40000)))
     idx_shards = [list(range(len(pairs)))[i::nshard] for i in range(nshard)]
 
     def one(k):
